@@ -11,7 +11,6 @@ import (
 	"verifharness/common"
 )
 
-
 func tagOf(f *cptvframe.Frame) int { return int(f.Pix[0][0]) | int(f.Pix[0][1])<<16 }
 func setTag(f *cptvframe.Frame, t int) {
 	f.Pix[0][0] = uint16(t)
